@@ -219,6 +219,12 @@ def probe_projects():
         body = "%s\n    app.emit(\"payload-probe\", %s).unwrap();" % (setup, expr)
         add("event-payload-expression", "inferred-from-expression", (setup + " " + expr).strip(), rg.struct_src("Item", [("a", "i32")]) + base_cmd() +
             "pub fn notify(app: tauri::AppHandle, flag: bool, n: usize, x: i32, a: i32, b: i32) {\n    %s\n}\n\n" % body)
+    # --- payload variables and parameters spelled as raw identifiers
+    for (params, setup, expr) in [("r#type: Item", "", "r#type"), ("r#loop: Vec<Item>", "", "&r#loop"), ("r#match: Item", "", "r#match.clone()"),
+                                  ("seed: Item", "let r#ref: Item = seed;", "r#ref"), ("seed: Item", "let r#in = Item { a: 1 };", "&r#in"),
+                                  ("r#type: Item", "let r#type = r#type.clone();", "r#type")]:
+        add("event-payload-expression", "raw-identifier-binding", (params + " | " + setup + " " + expr).strip(), rg.struct_src("Item", [("a", "i32")]) + base_cmd() +
+            "pub fn notify(app: tauri::AppHandle, %s) {\n    %s\n    app.emit(\"payload-probe\", %s).unwrap();\n}\n\n" % (params, setup, expr))
     # --- events
     for cls, names in EVENT_NAMES:
         for nm in names:
